@@ -11,8 +11,14 @@ Interfile image writer and reader:
                        `write_data_with_fixed_scale_factor_help` (1D), `write_data`  src/include/stir/IO/write_data.inl:62-116
                        `read_interfile_image` (scaling)       src/IO/interfile.cxx:139-148
 * file length          `read_data_1d`                         src/include/stir/IO/read_data_1d.inl:31-58
+                       data sets of a dynamic / parametric image: offsets written by `write_basic_interfile`
+                       (interfile.cxx:840-926), offsets parsed (`InterfileHeader::set_type_of_data`, InterfileHeader.cxx:422-456),
+                       the reading loops of `read_interfile_dynamic_image` / `read_interfile_parametric_image`
+                       (interfile.cxx:181-292) and of the Multi input formats (Multi*InputFileFormat.h)
 * exam information     `write_interfile_*` helpers            src/IO/interfile.cxx:369-493, 550-580
                        `InterfileHeader::post_processing`     src/IO/InterfileHeader.cxx:253-394
+                       single images (`read_interfile_image`, interfile.cxx:165-173), members of dynamic images
+                       (interfile.cxx:200-220), Multi dynamic images (MultiDynamicDiscretisedDensityInputFileFormat.h:73-96)
 
 What is modelled exactly: every formula on indices, sizes, offsets, scale factors and rounded integers, as
 rational arithmetic.  What is *not* modelled: binary32/binary64 rounding of the individual operations (the
